@@ -1,6 +1,7 @@
 package pc
 
 import (
+	"strconv"
 	"fmt"
 	"go/ast"
 	"go/constant"
@@ -87,6 +88,7 @@ type Engine struct {
 	order   []string
 	debug   bool
 	bindingParams bool
+	closureAssigns map[types.Object][]types.Object // call-only closure variable -> captured variables its body assigns
 	// PureDyn: function-typed variables whose call results are remembered like those of pure functions (a client
 	// that needs to know which way `if visit(n)` went within one iteration)
 	PureDyn map[types.Object]bool
@@ -138,12 +140,12 @@ func (e *Engine) noteBody(body ast.Node) {
 		case *ast.AssignStmt:
 			for _, l := range x.Lhs {
 				if o := objOf(e.Info, l); captured(o) && x.Tok != token.DEFINE {
-					e.noFacts[o] = true
+					e.noteCaptured(litStack[len(litStack)-1], o)
 				}
 			}
 		case *ast.IncDecStmt:
 			if o := objOf(e.Info, x.X); captured(o) {
-				e.noFacts[o] = true
+				e.noteCaptured(litStack[len(litStack)-1], o)
 			}
 		case *ast.UnaryExpr:
 			if x.Op == token.AND {
@@ -155,6 +157,26 @@ func (e *Engine) noteBody(body ast.Node) {
 		return true
 	}
 	ast.Inspect(body, walk)
+}
+
+// noteCaptured: a variable assigned inside a function literal. Normally it carries no facts (the literal may run at
+// any time); if the literal is a local closure that is only ever called directly (f := func(){...}; f()), the
+// assignments happen exactly at those calls: the variable keeps its facts and they are dropped at every such call
+// that is not interpreted in place.
+func (e *Engine) noteCaptured(lit *ast.FuncLit, o types.Object) {
+	if v := e.P.callOnlyClosure(lit); v != nil {
+		if e.closureAssigns == nil {
+			e.closureAssigns = map[types.Object][]types.Object{}
+		}
+		for _, x := range e.closureAssigns[v] {
+			if x == o {
+				return
+			}
+		}
+		e.closureAssigns[v] = append(e.closureAssigns[v], o)
+		return
+	}
+	e.noFacts[o] = true
 }
 
 // Reporting is true outside loop fixpoint iterations: only then may obligations be recorded.
@@ -609,6 +631,31 @@ func (e *Engine) forStmt(s *ast.ForStmt, in []*State) []*State {
 
 func (e *Engine) rangeStmt(s *ast.RangeStmt, in []*State) []*State {
 	in = e.expr(s.X, in)
+	// the index of a range over a slice, array or string is 0 in the first iteration and at least 1 afterwards
+	indexed := false
+	if id, ok := s.Key.(*ast.Ident); ok && id.Name != "_" {
+		if t := e.Info.TypeOf(s.X); t != nil {
+			switch u := t.Underlying().(type) {
+			case *types.Slice, *types.Array:
+				indexed = true
+			case *types.Basic:
+				indexed = u.Info()&types.IsString != 0
+			case *types.Pointer:
+				_, indexed = u.Elem().Underlying().(*types.Array)
+			}
+		}
+	}
+	mark := "rangeiter:" + strconv.Itoa(int(s.Pos()))
+	setMark := func(l []*State, v string) []*State {
+		if !indexed {
+			return l
+		}
+		out := make([]*State, 0, len(l))
+		for _, st := range l {
+			out = append(out, st.WithExt(mark, v))
+		}
+		return out
+	}
 	bind := func(st *State) *State {
 		if s.Key != nil {
 			st = e.killTarget(st, s.Key)
@@ -616,8 +663,25 @@ func (e *Engine) rangeStmt(s *ast.RangeStmt, in []*State) []*State {
 		if s.Value != nil {
 			st = e.killTarget(st, s.Value)
 		}
+		if indexed {
+			if k := e.canon(st, s.Key); k.OK {
+				first := st.Ext(mark) == "0"
+				if n := e.update(st, k, func(f *Fact) {
+					if first {
+						f.HasEq, f.Eq = true, "0"
+					} else {
+						one := int64(1)
+						f.Lo = &one
+					}
+				}); n != nil {
+					st = n
+				}
+			}
+			st = st.WithExt(mark, "")
+		}
 		return st
 	}
+	in = setMark(in, "0")
 	var head StateSet
 	head.addAll(in)
 	e.quiet++
@@ -631,6 +695,7 @@ func (e *Engine) rangeStmt(s *ast.RangeStmt, in []*State) []*State {
 		e.take(e.brk, s)
 		e.popTarget()
 		out = e.pruneScope(out, s.Body) // variables of the body die with the iteration
+		out = setMark(out, "1")
 		out = compact(out)
 		if iter >= 1 {
 			out = widen(head.list, out)
@@ -645,7 +710,7 @@ func (e *Engine) rangeStmt(s *ast.RangeStmt, in []*State) []*State {
 	}
 	e.quiet--
 	cur := compact(head.list)
-	exit := cur
+	exit := compact(setMark(cur, ""))
 	cur = e.hookEach(cur, func(st *State) *State { return e.Client.LoopHead(e, st, s) })
 	cur = e.hookEach(cur, bind)
 	e.pushTarget(s, true)
@@ -918,6 +983,17 @@ func (e *Engine) call(x *ast.CallExpr, in []*State) []*State {
 		in = e.inlineCall(x, callee, decl, in)
 	} else {
 		in = e.hookEach(in, func(st *State) *State { return e.callEffects(st, x, callee, builtin) })
+		// a local closure that is not interpreted in place assigns the variables it captures
+		if id, ok := ast.Unparen(x.Fun).(*ast.Ident); ok {
+			if assigned := e.closureAssigns[objOf(info, id)]; len(assigned) > 0 {
+				in = e.hookEach(in, func(st *State) *State {
+					for _, o := range assigned {
+						st = st.killObj(o)
+					}
+					return st
+				})
+			}
+		}
 	}
 	in = e.hookEach(in, func(st *State) *State { return e.Client.PostCall(e, st, x, callee) })
 	return in
@@ -1301,6 +1377,10 @@ func (e *Engine) valueOf(st *State, x ast.Expr) *Fact {
 			case "fmt.Errorf", "errors.New":
 				return &Fact{Nil: 2}
 			}
+			// a module function with one result that returns a freshly made value on every path
+			if e.P.freshResult(f) {
+				return &Fact{Nil: 2, Tags: []string{"fresh:new"}}
+			}
 		}
 	}
 	if k := e.canon(st, x); k.OK {
@@ -1427,6 +1507,18 @@ func (e *Engine) setAlias(st *State, l ast.Expr, target *keyInfo) *State {
 		for _, o := range target.Objs {
 			if lv, ok := o.(*types.Var); ok && !lv.IsField() && lv.Pkg() != nil && lv.Parent() != lv.Pkg().Scope() && lv.Pos() > obj.Pos() && !strings.HasPrefix(lv.Name(), "ret") && inCur(lv.Pos()) && inCur(obj.Pos()) {
 				return st
+			}
+		}
+	}
+	if len(e.frames) > 0 && !e.isResultIdent(id) && !e.bindingParams {
+		// inside a helper (or closure) interpreted in place: a variable of the caller must not be named after one of
+		// the helper's locals, which disappear when it returns
+		d := e.frames[len(e.frames)-1].Decl
+		if obj.Pos() < d.Pos() || obj.Pos() >= d.End() {
+			for _, o := range target.Objs {
+				if lv, ok := o.(*types.Var); ok && !lv.IsField() && o.Pos() >= d.Pos() && o.Pos() < d.End() {
+					return st
+				}
 			}
 		}
 	}
